@@ -84,6 +84,20 @@ impl<W: Write> Serializer<W> {
         self.element_with_ns(name, xmlns, |s| val.serialize_content(s))
     }
 
+    /// Serializes a type as an element that carries XML attributes
+    ///
+    /// # Errors
+    /// Returns an error if the underlying writer returns an error
+    pub fn content_with_attrs<T: SerializeContent + ?Sized>(&mut self, name: &str, attrs: &[(&str, &str)], val: &T) -> SerResult {
+        let mut e = BytesStart::new(name);
+        for &attr in attrs {
+            e.push_attribute(attr);
+        }
+        self.event(Event::Start(e))?;
+        val.serialize_content(self)?;
+        self.event(end(name))
+    }
+
     /// Serializes a flattened `list`
     ///
     /// # Errors
